@@ -27,6 +27,7 @@ var (
 	sNested  = Obj(P("k", Obj(P("m", Arr(Bool("true"), Null())))), P("f", Float("1.5")))
 	sRefT1   = Obj(P("r", Ref("@T1")))
 	sEnumE1  = Obj(P("e", Str("a").Enum("@E1")))
+	sAllOf   = Obj(P("own", Bool("true"))).AllOf("@T1")
 	sHdr     = Obj(P("X-A", Str("1")))
 	sHdr2    = Obj(P("X-B", Str("2")))
 )
@@ -43,6 +44,7 @@ func DefaultPalette() *Palette {
 			{Name: "@T4", Body: Body{Kind: "any"}},
 			{Name: "@T5", Body: Body{Kind: "schema", S: sEnumE1}},
 			{Name: "@T6", Body: Body{Kind: "schema", S: Int("12").Min("1")}},
+			{Name: "@T7", Ann: "derived", Body: Body{Kind: "schema", S: sAllOf}},
 		},
 		Enums:   []*Enum{{Name: "@E1", Ann: "letters", Vals: []EnumVal{{V: Str("a"), Note: "first"}, {V: Str("b")}}}, {Name: "@E2", Vals: []EnumVal{{V: Int("1")}}}},
 		Methods: []string{"GET", "POST"},
@@ -55,6 +57,7 @@ func DefaultPalette() *Palette {
 			{Code: "500", Headers: sHdr2, Body: Body{Kind: "regex", Re: "abc"}},
 			{Code: "204", Body: Body{Kind: "empty"}},
 			{Code: "200", Body: Body{Kind: "schema", S: sNested}},
+			{Code: "200", Body: Body{Kind: "schema", S: Obj(P("x", Int("2"))).AllOf("@T1")}},
 		},
 		Reqs: []*Req{
 			{Body: Body{Kind: "schema", S: sArr}},
